@@ -47,7 +47,8 @@ static inline size_t iora_skey_size(const iora_skey *k) { return k->n; }
 #define IORA_SMAP1_SHRINK(m) { if ((m)->n > 0) (m)->n--; IORA_SMAP1_REPOS(m) }
 #define IORA_SMAP1(M, V, VDEFAULT) \
 typedef struct { bool has; V val; V other; bool touched; bool gtouched; iora_skey lastkey; \
-                 size_t n; size_t gpos; /* iteration ghost: number of entries, position of the ghost entry (has => gpos < n) */ } M; \
+                 size_t n; size_t gpos; /* iteration ghost: number of entries, position of the ghost entry (has => gpos < n) */ \
+                 size_t gkn; /* length of the ghost key as seen when iterating */ } M; \
 typedef struct { const M *map; bool found; V *second; iora_skey first; } M##_iter; \
 static inline M##_iter M##_find(M *m, iora_skey k) \
 { M##_iter it; it.map = m; it.first = k; \
@@ -79,7 +80,7 @@ static inline bool M##_at_end(const M *m, M##_cursor c) { IORA_ASSERT(c.map == m
 static inline bool M##_cur_is_g(M##_cursor c) { return c.map->has && c.i == c.map->gpos; } \
 static inline iora_skey M##_cur_first(M##_cursor c) \
 { IORA_ASSERT(c.i < c.map->n, "unordered_map iterator dereferenced only when it is not end()"); \
-  iora_skey k; k.p = NULL; k.n = nondet_size_t(); k.is_g = M##_cur_is_g(c); return k; } \
+  iora_skey k; k.p = NULL; k.is_g = M##_cur_is_g(c); k.n = k.is_g ? c.map->gkn : nondet_size_t(); return k; } \
 static inline V *M##_cur_second(M##_cursor c) \
 { IORA_ASSERT(c.i < c.map->n, "unordered_map iterator dereferenced only when it is not end()"); \
   if (M##_cur_is_g(c)) return &c.map->val; \
